@@ -5,7 +5,12 @@ Correspondence:
       .chunks and ._layer()) vs the Gallina model (coq/theories/Indexing.v) evaluated inside Coq;
   (b) impl vs the property itself: x[idx].compute() (and the real SliceSlicesIntegers layer
       interpreted block by block on NumPy blocks) vs NumPy for basic indices; by value only for
-      the fancy paths (lists, boolean masks, integer dask arrays, .vindex, .blocks, unknown chunks)."""
+      the fancy paths (boolean masks, integer dask arrays, .vindex, .blocks, unknown chunks);
+  (c) ONE-DIMENSIONAL integer lists / ndarrays (x[:, [3, 0, 3]], da.take): the node that is built (IndexError /
+      slice(0,0,1) / x itself / Shuffle), the normalised index, Shuffle.indexer, ._new_chunks, .chunks and the plan
+      read back from Shuffle._layer() of the LOWERED expression (per output block: the split tasks = (input block,
+      local offsets) and, after undoing the sorter, the (input block, local offset) of every output element) vs the
+      Gallina model coq/theories/TakeModel.v inside Coq; the plan interpreted by hand on NumPy blocks vs NumPy."""
 from __future__ import annotations
 
 import itertools
@@ -648,6 +653,408 @@ def other_entry(rng, d, allow_int=True):
     return rand_slice(rng, d)
 
 
+
+# ---------------------------------------------------------------------------
+# one-dimensional integer list along one axis: the Shuffle ("take") layer read back and tied to TakeModel.v
+TAKE_HEADER = ("From DA Require Import PyBase Transfer2 TakeModel.\nFrom Coq Require Import List.\nImport ListNotations.\n"
+               "Open Scope Z_scope.\n")
+TAKE_DEF = """
+Inductive tobs := TOErr | TOEmpty (oc : list Z) | TOSelf (oc : list Z)
+  | TOShuffle (index : list Z) (indexer nc : list (list Z)) (oc : list Z)
+              (plan : list (list (Z * Z))) (splits : list (list (Z * list Z))).
+Definition oc_ok (chunks idx oc : list Z) : bool :=
+  match take_out_chunks chunks idx with Some m => zlist_eqb m oc | None => false end.
+Definition chk (c : list Z * list Z * tobs) : bool :=
+  let '(chunks, idx, o) := c in
+  match take_route_of chunks idx, o with
+  | TRError, TOErr => true
+  | TREmptySlice, TOEmpty oc => oc_ok chunks idx oc
+  | TRIdentity, TOSelf oc => oc_ok chunks idx oc
+  | TRShuffle index indexer nc, TOShuffle index' indexer' nc' oc plan splits =>
+      zlist_eqb index index' && zlist2_eqb indexer indexer' && zlist2_eqb nc nc' && oc_ok chunks idx oc &&
+      match take_plan chunks idx with Some p => list_eqb (list_eqb pair_eqb) p plan | None => false end &&
+      match take_splits chunks idx with Some s => list_eqb (list_eqb split_eqb) s splits | None => false end &&
+      forallb (forallb (pair_ok_b chunks)) plan
+  | _, _ => false
+  end.
+"""
+TAKE_TYPE = "list Z * list Z * tobs"
+
+
+def find_nodes(expr, cls):
+    from dask_array._expr import ArrayExpr
+    out, seen, stack = [], set(), [expr]
+    while stack:
+        e = stack.pop()
+        if id(e) in seen:
+            continue
+        seen.add(id(e))
+        if isinstance(e, cls):
+            out.append(e)
+        stack.extend(d for d in e.dependencies() if isinstance(d, ArrayExpr))
+    return out
+
+
+def interpret_take_layer(impl, sh):
+    """Read the plan of a Shuffle node back from its ._layer(): for every output block number k along the axis
+    (checked identical for every block of the other axes, whose key coordinates must be copied unchanged)
+      splits[k] = [(input block, [local offsets]) per split task, in merge order]
+      pairs[k]  = [(input block, local offset) per OUTPUT element, in output order]
+    Returns (pairs, splits, problems, number of unused sorter nodes)."""
+    from dask_array._shuffle import _getitem, concatenate_arrays
+    axis = sh.axis
+    in_chunks = sh.array.chunks
+    in_name = sh.array._name
+    L = sh._layer()
+    nout = len(sh.chunks[axis])
+    others = [range(len(c)) for i, c in enumerate(in_chunks) if i != axis]
+    problems = []
+    used = set()
+
+    def split_of(key, okey):
+        t = L.get(key)
+        if t is None or getattr(t, "func", None) is not _getitem:
+            problems.append(f"{key!r}: not a _getitem split task")
+            return None
+        used.add(key)
+        bkey = t.args[0].key
+        tk = t.args[1].key
+        node = L.get(tk)
+        if node is None or not hasattr(node, "value"):
+            problems.append(f"taker {tk!r} missing")
+            return None
+        used.add(tk)
+        sl = node.value[1]
+        if bkey[0] != in_name or len(bkey) != len(in_chunks) + 1 or len(sl) != len(in_chunks):
+            problems.append(f"split {key!r} reads {bkey!r} with {sl!r}")
+            return None
+        rest = tuple(int(v) for i, v in enumerate(bkey[1:]) if i != axis)
+        if rest != okey:
+            problems.append(f"split {key!r}: other-axis coordinates {rest} != output's {okey}")
+        if any(not (isinstance(e, slice) and e == slice(None)) for i, e in enumerate(sl) if i != axis):
+            problems.append(f"split {key!r}: non-trivial index on another axis: {sl!r}")
+        return int(bkey[1 + axis]), [int(v) for v in np.asarray(sl[axis]).tolist()]
+
+    pairs_all, splits_all = [], []
+    for k in range(nout):
+        ref = None
+        for okey in itertools.product(*others):
+            okey = tuple(int(v) for v in okey)
+            full = list(okey)
+            full.insert(axis, k)
+            key = (sh._name, *full)
+            t = L.get(key)
+            if t is None:
+                problems.append(f"output key {key!r} missing")
+                continue
+            used.add(key)
+            f = getattr(t, "func", None)
+            if f is concatenate_arrays:
+                refs = [r.key for r in t.args[0].args]
+                sk = t.args[1].key
+                used.add(sk)
+                sorter = np.asarray(L[sk].value[1])
+                if int(t.args[2]) != axis:
+                    problems.append(f"{key!r}: merges along axis {t.args[2]} != {axis}")
+                sp = [split_of(r, okey) for r in refs]
+                if any(x is None for x in sp):
+                    continue
+                cat = [(b, o) for b, offs in sp for o in offs]
+                if sorted(sorter.tolist()) != list(range(len(cat))):
+                    problems.append(f"{key!r}: sorter {sorter.tolist()} is not a permutation of the {len(cat)} merged elements")
+                    continue
+                inv = np.argsort(sorter)          # what concatenate_arrays applies
+                pr = [cat[int(j)] for j in inv]
+            elif f is _getitem:
+                one = split_of(key, okey)
+                if one is None:
+                    continue
+                sp = [one]
+                pr = [(one[0], o) for o in one[1]]
+            else:
+                problems.append(f"output key {key!r}: unexpected task {t!r}")
+                continue
+            if ref is None:
+                ref = (pr, sp)
+            elif ref != (pr, sp):
+                problems.append(f"output block {k}: the plan differs between blocks of the other axes")
+        if ref is None:
+            ref = ([], [])
+        pairs_all.append(ref[0])
+        splits_all.append(ref[1])
+    extra = [k for k in L if k not in used]
+    # a sorter DataNode is emitted for every output chunk, also when a single source block is read directly (no merge
+    # task refers to it): harmless orphan, culled before execution
+    orphans = [k for k in extra if isinstance(k, str) and k.startswith("shuffle-sorter-")]
+    extra = [k for k in extra if k not in orphans]
+    if extra:
+        problems.append(f"{len(extra)} layer keys are not used by any output block, e.g. {extra[0]!r}")
+    return pairs_all, splits_all, problems, len(orphans)
+
+
+class TakeRunner:
+    """x[..., list, ...] / da.take: real node + layer vs TakeModel.v (one Coq batch at the end)."""
+
+    def __init__(self, chk, impl):
+        from dask_array._shuffle import Shuffle
+        self.chk, self.impl, self.Shuffle = chk, impl, Shuffle
+        self.cases, self.inputs = [], []
+
+    def observe(self, a, x, idx, lst_pos, build, data):
+        """idx: index tuple (one 1-D int list/ndarray at position lst_pos, ints/slices/None elsewhere, all valid);
+        build(): the dask expression-building call.  Records one model case; by-hand value check."""
+        chk, impl = self.chk, self.impl
+        t = as_tuple(idx)
+        lst = [int(v) for v in np.asarray(t[lst_pos]).tolist()]
+        # the array axis the list indexes, and the chunks the take sees
+        in_ax = sum(1 for e in t[:lst_pos] if e is not None)
+        chunks_ax = tuple(int(c) for c in x.chunks[in_ax])
+        with warnings.catch_warnings():
+            warnings.simplefilter("ignore")
+            try:
+                y, yerr = build(), None
+            except Exception as e:  # noqa: BLE001
+                y, yerr = None, e
+        if yerr is not None:
+            if isinstance(yerr, IndexError):
+                chk.count("take-tie:IndexError")
+                self._add(chunks_ax, lst, "TOErr", data)
+            else:
+                chk.count("take-tie:skipped-raises-" + type(yerr).__name__)
+            return
+        out_ax = sum(1 for e in t[:lst_pos] if not isinstance(e, Integral))   # axis of y the list became
+        oc = tuple(int(c) for c in y.chunks[out_ax])
+        if y is x or y.expr is x.expr:
+            chk.count("take-tie:identity")
+            self._add(chunks_ax, lst, f"(TOSelf {clist(oc)})", data)
+            return
+        if not lst:
+            chk.count("take-tie:empty")
+            if find_nodes(y.expr, self.Shuffle):
+                chk.tie_break("correspondence:take-node", {**data, "why": "empty list built a Shuffle"})
+            self._add(chunks_ax, lst, f"(TOEmpty {clist(oc)})", data)
+            return
+        raw = find_nodes(y.expr, self.Shuffle)
+        if not raw:
+            # take() returned its input (the basic-sliced array in the mixed case): the identity route
+            chk.count("take-tie:identity(after basic slicing)")
+            self._add(chunks_ax, lst, f"(TOSelf {clist(oc)})", data)
+            return
+        if len(raw) != 1:
+            chk.tie_break("correspondence:take-node", {**data, "why": f"{len(raw)} Shuffle nodes", "expr": type(y.expr).__name__})
+            return
+        sh = raw[0]
+        with warnings.catch_warnings():
+            warnings.simplefilter("ignore")
+            try:
+                low = find_nodes(y.expr.simplify().lower_completely(), self.Shuffle)
+            except Exception:  # noqa: BLE001
+                low = []
+        if len(low) == 1 and low[0].axis == sh.axis and low[0].array.chunks[low[0].axis] == sh.array.chunks[sh.axis] \
+                and low[0].indexer == sh.indexer:
+            sh = low[0]
+            chk.count("take-tie:lowered-node")
+        else:
+            chk.count("take-tie:raw-node(lowering rewrote the shuffle)")
+        ax = sh.axis
+        in_chunks = tuple(int(c) for c in sh.array.chunks[ax])
+        if in_chunks != chunks_ax:
+            chk.count("take-tie:input-chunks-differ-from-x")
+        pairs, splits, problems, orphans = interpret_take_layer(impl, sh)
+        if orphans:
+            chk.count("take-tie:layer-has-unused-sorter-node")
+        sig = {"path": "list", "class": "take-layer"}
+        # by hand, independent of the model: bounds, sizes, positions
+        adv = tuple(int(c) for c in sh.chunks[ax])
+        if adv != oc:
+            problems.append(f"Shuffle.chunks[axis] {adv} != chunks of the result {oc}")
+        if tuple(len(p) for p in pairs) != adv:
+            problems.append(f"blocks produce {tuple(len(p) for p in pairs)} elements, advertised {adv}")
+        offs = np.concatenate([[0], np.cumsum(in_chunks)]).astype(int)
+        bad = [(b, o) for p in pairs for b, o in p if not (0 <= b < len(in_chunks) and 0 <= o < in_chunks[b])]
+        if bad:
+            problems.append(f"pairs outside their input block: {bad[:3]}")
+        else:
+            d = int(sum(in_chunks))
+            pos = [int(offs[b] + o) for p in pairs for b, o in p]
+            want_pos = [v + d if v < 0 else v for v in lst]
+            if pos != want_pos:
+                problems.append(f"the plan reads positions {pos[:12]} != NumPy's {want_pos[:12]}")
+            else:
+                # values: the input of the take is a[basic part]; read it through the plan
+                t2 = tuple(slice(None) if i == lst_pos else e for i, e in enumerate(t) if e is not None)
+                a_in = a[t2]
+                blocks = [np.take(a_in, np.arange(offs[b], offs[b + 1]), axis=ax) for b in range(len(in_chunks))]
+                pieces = [np.stack([np.take(blocks[b], o, axis=ax) for b, o in p], axis=ax) if p else
+                          np.take(a_in, [], axis=ax) for p in pairs]
+                hand = np.concatenate(pieces, axis=ax)
+                want = outer_oracle(a, tuple(e for e in t if e is not None))
+                if want is not None and not same(hand, want):
+                    problems.append("the plan interpreted on NumPy blocks differs from NumPy's outer indexing")
+        if problems:
+            chk.violation("Shuffle layer of a list index: " + "; ".join(problems[:3]), {**data, "in_chunks": in_chunks},
+                          signature=sig)
+        nidx = self._norm(t, a.shape, lst_pos)
+        lit = ("(TOShuffle " + clist(nidx) + " " + clist(sh.indexer, clist) + " " + clist(sh._new_chunks, clist) + " " +
+               clist(adv) + " " + clist(pairs, lambda p: clist(p, lambda e: ctuple(cz(e[0]), cz(e[1])))) + " " +
+               clist(splits, lambda sp: clist(sp, lambda e: ctuple(cz(e[0]), clist(e[1])))) + ")")
+        chk.count("take-tie:shuffle" + (":multi-source" if any(len(sp) > 1 for sp in splits) else ""))
+        self._add(in_chunks, lst, lit, data)
+
+    def _norm(self, t, shape, lst_pos):
+        try:
+            out = self.impl.normalize_index(t, shape)
+            return [int(v) for v in np.asarray(out[lst_pos]).tolist()]
+        except Exception:  # noqa: BLE001
+            return []
+
+    def _add(self, chunks_ax, lst, lit, data):
+        self.cases.append(ctuple(clist(chunks_ax), clist(lst), lit))
+        self.inputs.append((chunks_ax, lst, lit, data))
+
+    def flush(self):
+        chk = self.chk
+        mism, _ = coq_eval_cases(TAKE_HEADER, TAKE_TYPE, TAKE_DEF, self.cases, chunk=400)
+        for i in mism[:5]:
+            chunks_ax, lst, lit, data = self.inputs[i]
+            c, l = clist(chunks_ax), clist(lst)
+            model = coq_eval_expr(TAKE_HEADER, [f"take_route_of {c} {l}", f"take_out_chunks {c} {l}", f"take_plan {c} {l}",
+                                                f"take_splits {c} {l}"])
+            chk.tie_break("correspondence:take-plan", {**data, "axis_chunks": chunks_ax, "list": lst, "impl": lit[:1500], "model": model})
+        chk.traces_validated += len(self.cases) - len(mism)
+
+
+def rand_take_list(rng, d, chunks_ax):
+    """index list along an axis of length d: sorted / unsorted / repeated / negative / out of range / identity / long"""
+    mode = rng.choice(["unsorted", "unsorted", "sorted", "repeated", "negative", "oob", "identity", "near-identity",
+                       "long", "one-block", "runs", "empty"])
+    if d == 0 and mode not in ("oob", "empty"):
+        mode = rng.choice(["oob", "empty"])
+    if mode == "empty":
+        return mode, []
+    if mode == "oob":
+        k = rng.randint(1, 5)
+        lst = [rng.randint(-d, d - 1) for _ in range(k)] if d else []
+        lst.insert(rng.randint(0, len(lst)), rng.choice([d, d + 1, -d - 1, -d - 2, 3 * d + 1]))
+        return mode, lst
+    if mode == "identity":
+        return mode, list(range(d)) if rng.random() < 0.7 else [v - d for v in range(d)]
+    if mode == "near-identity":
+        lst = list(range(d))
+        r = rng.random()
+        if r < 0.4 and d > 1:
+            i, j = rng.sample(range(d), 2)
+            lst[i], lst[j] = lst[j], lst[i]
+        elif r < 0.7:
+            lst = lst[:-1] if rng.random() < 0.5 else lst + [rng.randrange(d)]
+        else:
+            lst = lst[::-1]
+        return mode, lst
+    if mode == "long":
+        k = rng.randint(d + 1, 3 * d + 8)
+        lst = [rng.randrange(d) for _ in range(k)]
+        if rng.random() < 0.3:
+            lst.sort()
+        return mode, lst
+    if mode == "one-block":
+        nz = [b for b, c in enumerate(chunks_ax) if c > 0]
+        b = rng.choice(nz)
+        lo = sum(chunks_ax[:b])
+        return mode, [rng.randrange(lo, lo + chunks_ax[b]) for _ in range(rng.randint(1, 2 * chunks_ax[b] + 2))]
+    if mode == "runs":                      # np.repeat-like: long runs inside one chunk, then the next
+        lst = []
+        for _ in range(rng.randint(1, 4)):
+            v = rng.randrange(d)
+            lst += [v] * rng.randint(1, 5)
+        return mode, lst
+    k = rng.randint(1, min(12, 2 * d + 1))
+    if mode == "repeated":
+        pool = [rng.randrange(d) for _ in range(rng.randint(1, 2))]
+        return mode, [rng.choice(pool) for _ in range(k)]
+    if mode == "negative":
+        return mode, [rng.randint(-d, d - 1) if rng.random() < 0.5 else rng.randint(-d, -1) for _ in range(k)]
+    lst = [rng.randrange(d) for _ in range(k)]
+    if mode == "sorted":
+        lst.sort()
+    return mode, lst
+
+
+def fam_take_plan(chk, impl, tier, T):
+    """generated (chunks, index list, axis) cases for the take/Shuffle tie; values by hand and (sampled) by compute()"""
+    import random as _random
+    rng = _random.Random(f"C12-take-{chk.seed}")
+    da = impl.da
+
+    def one(shape, chunks, ax, lst, how, mode, compute):
+        a = base_array(shape)
+        x = impl.arr(a, chunks)
+        arr = np.array(lst, dtype=int) if how != "list" else list(lst)
+        if how == "take":
+            idx = (slice(None),) * ax + (arr,)
+            build = lambda: da.take(x, arr, axis=ax)                     # noqa: E731
+            npf = lambda: np.take(a, np.array(lst, dtype=int), axis=ax)  # noqa: E731
+            if a.size == 0:
+                # np.take skips the bounds check when the array has no element (np.take(np.zeros((0, 3)), [5], axis=1)
+                # has shape (0, 1)) while a[:, [5]] raises; dask_array raises in both: the getitem reading is the oracle
+                npf = lambda: a[idx]                                     # noqa: E731
+                chk.count("take:oracle=getitem(empty array: np.take skips the bounds check)")
+        else:
+            idx = (slice(None),) * ax + (arr,)
+            build = lambda: x[idx]                                       # noqa: E731
+            npf = lambda: a[idx]                                         # noqa: E731
+        data = {"fn": "take-plan", "shape": shape, "chunks": chunks, "axis": ax, "list": list(lst), "how": how, "mode": mode}
+        chk.count(f"take:{mode}")
+        chk.count(f"take:how={how}")
+        chk.case(("take", shape, chunks, ax, tuple(lst), how), nontrivial=bool(lst) and all(-shape[ax] <= v < shape[ax] for v in lst),
+                 sample=data)
+        T.observe(a, x, idx, ax, build, data)
+        if compute:
+            want, werr = np_eval(npf)
+            got, gerr = da_eval(build)
+            judge(chk, "list", data, got, gerr, want, werr)
+
+    # corpus
+    one((10,), ((3, 4, 3),), 0, [3, 0, 3, 5, 9, 9, 1, -1], "list", "corpus", True)
+    one((2,), ((2,),), 0, [0, 0, 0, 0, 0], "list", "corpus", True)          # one run longer than the limit: split 2,2,1
+    one((3,), ((2, 0, 1),), 0, [2, 0, -1, 0], "ndarray", "corpus", True)
+    one((3,), ((2, 0, 1),), 0, [0, 1, 2], "take", "corpus", True)            # identity with a zero-size chunk
+    one((4, 3), ((1, 1, 2), (3,)), 0, [0, 1, 2, 3], "list", "corpus", True)  # identity
+    one((4, 3), ((1, 1, 2), (3,)), 0, [0, 1, 3, 2], "list", "corpus", True)  # groups [0],[1],[3,2] merged to (2, 2)
+    one((3,), ((2, 1),), 0, [3], "take", "corpus", True)
+    one((3,), ((2, 1),), 0, [-4], "list", "corpus", True)
+
+    # exhaustive small scope: every chunking of n (with zero-size variants) x every in-range list over [-n, n-1] up to a
+    # length, plus lists with one out-of-range entry and a few long / identity-like ones
+    nmax = 5 if tier == "thorough" else 4
+    for n in range(1, nmax + 1):
+        vals = list(range(-n, n))
+        maxlen = 3 if n <= (4 if tier == "thorough" else 3) else 2
+        lists = [()]
+        for k in range(1, maxlen + 1):
+            lists += list(itertools.product(vals, repeat=k))
+        for v in (n, -n - 1, n + 1):
+            lists += [(v,), (0, v), (v, 0), (-1, v, 0)]
+        lists += [tuple(range(n)), tuple(range(n)) + (0,), tuple(reversed(range(n))), (0,) * (n + 2), (n - 1,) * (2 * n + 1),
+                  tuple(range(n)) * 2, tuple(v for v in range(n) for _ in range(2)), tuple(range(-n, 0))]
+        for cs in chunkings_1d(n, tier):
+            for lst in lists:
+                one((n,), (cs,), 0, list(lst), "list", "exhaustive", False)
+
+    # random N-d
+    N = 8000 if tier == "thorough" else 600
+    for k in range(N):
+        rank = rng.choice([1, 1, 2, 2, 3])
+        shape = tuple(rng.choice([0, 1, 2, 3, 4, 5, 6, 7, 9, 12]) for _ in range(rank))
+        chunks = tuple(rand_chunks_axis(rng, dd) for dd in shape)
+        ax = rng.randrange(rank)
+        if rng.random() < 0.6:
+            shape = shape[:ax] + (max(shape[ax], rng.choice([3, 5, 8, 13])),) + shape[ax + 1:]
+            chunks = chunks[:ax] + (rand_chunks_axis(rng, shape[ax]),) + chunks[ax + 1:]
+        mode, lst = rand_take_list(rng, shape[ax], chunks[ax])
+        how = rng.choice(["list", "ndarray", "take"])
+        one(shape, chunks, ax, lst, how, mode, compute=(k % 4 == 0))
+
+
 def fam_list(chk, impl, tier):
     rng = chk.rng
     corpus = [
@@ -686,6 +1093,7 @@ def fam_list(chk, impl, tier):
             ents.insert(rng.randint(0, len(ents)), None)
         idx = tuple(ents) if (len(ents) > 1 or rng.random() < 0.5) else ents[0]
         cases.append((shape, chunks, idx))
+    T = TakeRunner(chk, impl)
     for shape, chunks, idx in cases:
         a = base_array(shape)
         x = impl.arr(a, chunks)
@@ -698,6 +1106,37 @@ def fam_list(chk, impl, tier):
         data = {"fn": "list", "shape": shape, "chunks": chunks, "index": idx_repr(idx)}
         chk.case(("list", shape, chunks, idx_repr(idx)), nontrivial=werr is None, sample=data)
         judge(chk, "list", data, got, gerr, want, werr, a=a, idx=idx)
+        if kind != "bool":
+            # the other entries of these indices are valid ints / slices / None: an IndexError can only come from the list
+            lst_pos = [i for i, e in enumerate(t) if isinstance(e, (list, np.ndarray))][0]
+            T.observe(a, x, idx, lst_pos, lambda: x[idx], data)
+    fam_take_plan(chk, impl, tier, T)
+    T.flush()
+    fam_list_nd(chk, impl)
+
+
+def fam_list_nd(chk, impl):
+    """an integer index array with MORE than one dimension on one axis (NumPy: the axis is replaced by the array's
+    dimensions): must equal NumPy or be declined with NotImplementedError"""
+    cases = [((10,), ((3, 4, 3),), np.array([[1]])),                       # minimal: advertised (1,), computes [[[[3]]]]
+             ((10,), ((3, 4, 3),), np.array([[3, 0], [3, 1]])),
+             ((10,), ((3, 4, 3),), [[0, 1, 2]]),
+             ((6, 10), ((3, 3), (3, 4, 3)), (slice(None), np.array([[3, 0], [3, 1]])))]
+    for shape, chunks, idx in cases:
+        a = base_array(shape)
+        x = impl.arr(a, chunks)
+        want, werr = np_eval(lambda: a[idx])
+        got, gerr = da_eval(lambda: x[idx])
+        data = {"fn": "list", "shape": shape, "chunks": chunks, "index": idx_repr(idx)}
+        with warnings.catch_warnings():
+            warnings.simplefilter("ignore")
+            try:
+                data["advertised_shape"] = tuple(int(v) for v in x[idx].shape)
+            except Exception as e:  # noqa: BLE001
+                data["advertised_shape"] = repr(e)[:80]
+        chk.count("list-nd")
+        chk.case(("list-nd", shape, chunks, idx_repr(idx)), nontrivial=True, sample=data)
+        judge(chk, "list-nd", data, got, gerr, want, werr)
 
 
 def root_cause(gerr, operands, ravel_of=()):
@@ -1049,6 +1488,27 @@ def replay(path):
         x = impl.arr(a, chunks)
         print("numpy:", np_eval(lambda: a[idx]))
         print("impl now:", da_eval(lambda: x[idx]))
+    elif d.get("fn") == "take-plan":
+        shape = tuple(d["shape"])
+        chunks = tuple(tuple(c) for c in d["chunks"])
+        a = base_array(shape)
+        x = impl.arr(a, chunks)
+        ax, lst = d["axis"], d["list"]
+        arr = np.array(lst, dtype=int)
+        f = (lambda: impl.da.take(x, arr, axis=ax)) if d.get("how") == "take" else (lambda: x[(slice(None),) * ax + (arr,)])
+        print("numpy:", np_eval(lambda: np.take(a, arr, axis=ax)))
+        print("impl now:", da_eval(f))
+        try:
+            y = f()
+            for sh in find_nodes(y.expr, __import__("dask_array._shuffle", fromlist=["Shuffle"]).Shuffle):
+                print("Shuffle: axis", sh.axis, "input chunks", sh.array.chunks[sh.axis], "indexer", sh.indexer,
+                      "_new_chunks", sh._new_chunks, "chunks", sh.chunks[sh.axis])
+                print("plan read back from the layer:", interpret_take_layer(impl, sh)[:3])
+            c, l = clist(chunks[ax]), clist(lst)
+            print("model:", coq_eval_expr(TAKE_HEADER, [f"take_route_of {c} {l}", f"take_out_chunks {c} {l}", f"take_plan {c} {l}",
+                                                        f"take_splits {c} {l}"]))
+        except Exception as e:  # noqa: BLE001
+            print("building raises:", repr(e))
     elif d.get("fn") in ("dask-int", "vindex", "blocks") and "index" in d:
         env = {"slice": slice, "None": None, "Ellipsis": Ellipsis, "np": np}
         idx = eval(d["index"], env)
@@ -1078,13 +1538,22 @@ def run(chk: Check):
                 "normalized index after normalize_index itself was checked on every raw index) + random rank<=3 with None/"
                 "Ellipsis/too-many/two-ellipses; every case: normalize_index and the SliceSlicesIntegers/ExpandDims node "
                 "(index, axes, .chunks, every key of ._layer()) vs the Gallina model inside Coq, x[idx].compute() and the "
-                "hand-interpreted layer vs NumPy; fancy paths (lists, bool masks, dask int arrays, .vindex, .blocks, "
+                "hand-interpreted layer vs NumPy; 1-D integer lists / da.take (exhaustive small chunkings x lists over "
+                "[-n-1, n] + random sorted/unsorted/repeated/negative/out-of-range/identity/long lists, rank<=3, zero-size "
+                "chunks included): route, normalised index, Shuffle.indexer/_new_chunks/.chunks and the plan read back from "
+                "the lowered Shuffle._layer() vs TakeModel.v inside Coq, the plan run by hand on NumPy blocks vs NumPy; "
+                "other fancy paths (bool masks, dask int arrays, .vindex, .blocks, "
                 "unknown chunks) by value vs NumPy; non-trivial = a node was built / NumPy accepts the index")
     chk.assumptions = ["CPython slice.indices/range semantics as transcribed in coq/theories/PyBase.v",
                        "float ceil in new_blockdim is exact for |values| < 2^53",
                        "sanitize_index is the identity on Python ints / int-valued slices (the generator's domain)",
-                       "ExpandDims blocks apply np.expand_dims(block, sorted axes); modelled as successive list inserts"]
-    chk.trusted_base = ["reading Task.args / Alias.target of dask._task_spec to recover (input key, local slices)"]
+                       "ExpandDims blocks apply np.expand_dims(block, sorted axes); modelled as successive list inserts",
+                       "take: np.searchsorted(side='right') on the cumulative chunk sums = PyBase.bisect_right; the split "
+                       "tasks' sorted order is modelled by insertion sort (np.argsort's tie order is irrelevant: ties are "
+                       "equal indices); blocks are read with NumPy integer-array getitem (chunk.getitem)"]
+    chk.trusted_base = ["reading Task.args / Alias.target of dask._task_spec to recover (input key, local slices)",
+                        "reading Task.func/.args, List.args, DataNode.value of the Shuffle layer; np.argsort of the sorter "
+                        "permutation (as concatenate_arrays applies it) to recover the per-element plan"]
     chk.run_proofs()
     impl = Impl()
     fam_scalar_bool(chk, impl)
